@@ -109,7 +109,7 @@ class Atoms:
             left = e.left
             for op, right in zip(e.ops, e.comparators):
                 f = self._cmp(left, op, right)
-                parts.append(f if f is not None else ('unk',))
+                parts.append(f if f is not None else _unk(e))
                 left = right
             return parts[0] if len(parts) == 1 else ('and', parts)
         if self._is_sel(e, 'hopeful'):
@@ -123,7 +123,17 @@ class Atoms:
             return self.bool_summaries[e.func.id]
         if isinstance(e, ast.Constant):
             return ('const', bool(e.value))
-        return ('unk',)
+        return _unk(e)
+
+
+_UNK = [0]
+
+
+def _unk(e=None):
+    """an unknown sub-formula: every occurrence is its own free boolean (the literal tuple ('unk',) is ONE interned object, so two
+    different unknown conditions would otherwise be taken for the same atom: `not X and Y` became unsatisfiable)"""
+    _UNK[0] += 1
+    return ('unk', _UNK[0])
 
 
 def _atoms_of(f, acc):
@@ -138,7 +148,7 @@ def _atoms_of(f, acc):
         for g in f[1]:
             _atoms_of(g, acc)
     elif k == 'unk':
-        acc.add(('unk', id(f)))
+        acc.add(('unk', f[1] if len(f) > 1 else id(f)))
     return acc
 
 
@@ -156,7 +166,7 @@ def _eval(f, env):
         return all(_eval(g, env) for g in f[1])
     if k == 'or':
         return any(_eval(g, env) for g in f[1])
-    return env[('unk', id(f))]
+    return env[('unk', f[1] if len(f) > 1 else id(f))]
 
 
 def literals(f, truth):
